@@ -87,9 +87,10 @@ class Report:
                         self.evaluations += 1
                         self.add_violation(verdict["sig"], verdict["what"], verdict.get("detail"), c.desc, c.profile)
                     continue
-                if kind == "timeout":
+                if kind == "timeout" or (kind == "exit" and c.fate.get("code") == 3):
+                    # the driver's or the worker's own watchdog: never a verdict by itself (a loaded machine, a sanitizer build)
                     self.inconclusive += 1
-                    self.inconclusive_notes.append(f"case {c.k}: watchdog expired after {c.fate['after_s']}s")
+                    self.inconclusive_notes.append(f"case {c.k}: watchdog expired ({c.fate}; {c.note})")
                     continue
                 if not crash_is_violation:
                     self.inconclusive += 1
